@@ -9,7 +9,7 @@ import { ALL_REWRITES, HASH_PRESERVING, applySteps } from "../gen/rewrite.mjs";
 import { Rng } from "../lib/rng.mjs";
 import { isCyclic } from "../lib/deep.mjs";
 import { coreKinds } from "../gen/typegen.mjs";
-import { nameHashDifference } from "../lib/rtdiff.mjs";
+import { nameHashDifference, isRecursiveParser } from "../lib/rtdiff.mjs";
 import { compileText } from "../lib/util.mjs";
 
 // spellings that trigger the printer's optimisations: discriminated unions, literal unions, repeated sub-types
@@ -96,7 +96,7 @@ export async function compare(ctx, prog, steps, pools /* Map parserName -> value
     if (i >= 0) faults.push({ clause: "verdicts-differ", parser: ps.name, value: vals[i], detail: `original ${v1[i]} rewritten ${v2[i]} on ${show(vals[i])}` });
     const d1 = digest(p1),
       d2 = digest(p2);
-    if (hashComparable && d1.h256 !== d2.h256) faults.push({ clause: "hash256-differs", parser: ps.name, cause: ((c) => (c === "identical-modulo-refs" && coreKinds(prog.env, prog.cores.get(ps.name)).has("recursive") ? c + ":recursive" : c))(nameHashDifference(p1, p2)), detail: `${d1.h256.slice(0, 16)} vs ${d2.h256.slice(0, 16)}` });
+    if (hashComparable && d1.h256 !== d2.h256) faults.push({ clause: "hash256-differs", parser: ps.name, cause: ((c) => (c === "identical-modulo-refs" && (coreKinds(prog.env, prog.cores.get(ps.name)).has("recursive") || isRecursiveParser(p1)) ? c + ":recursive" : c))(nameHashDifference(p1, p2)), detail: `${d1.h256.slice(0, 16)} vs ${d2.h256.slice(0, 16)}` });
   }
   return { applied, text2, faults, prog2 };
 }
